@@ -1,6 +1,7 @@
 import Ptn.C19.Model
 import Ptn.C19.Spec
 import Ptn.C19.Lemmas
+import Ptn.C19.Mps
 /-! Property theorems for C19. Only property theorems and non-vacuity examples live here. -/
 namespace Ptn.C19
 
@@ -33,6 +34,73 @@ theorem nn_pairs_grid_mem (rows cols : Nat) (a b : Cell) :
 example : nnPairs 2 3 =
     [((0,0),(1,0)), ((0,0),(0,1)), ((0,1),(1,1)), ((0,1),(0,2)), ((0,2),(1,2)), ((1,0),(1,1)),
      ((1,1),(1,2))] := by decide
+
+/-! ### Matrix-product chain (`MatrixProductTree.from_tensor_list`, both code paths) -/
+
+/-- For every chain length `n ≥ 2`, every root position `r < n` and any number `p i` of open legs per
+    site, the construction completes (no exception) and yields: the path graph `0 - … - (n-1)` with the
+    documented identifiers (site indices, each exactly once, in the stated dict order), rooted at `r`
+    (parent of `i` is the neighbour towards `r`, the root's children are its left, then its right
+    neighbour); every node's legs in `(parent, children, open)` order are the input tensor's `left` axis
+    for the neighbour `i - 1`, its `right` axis for the neighbour `i + 1` and its open axes in order; the
+    bookkeeping lists `left_nodes` / `right_nodes` hold the sites left / right of the root in chain
+    order.  Which tensor *values* sit on these legs (zero padding) is the dense oracle's part. -/
+theorem mps_chain_structure (n r : Nat) (p : Nat → Nat) (hn : 2 ≤ n) (hr : r < n) :
+    ∃ st, fromTensorList n r p = some st ∧
+      st.root = r ∧
+      st.nodes.map (·.id) = chainOrder n r ∧
+      (chainOrder n r).Nodup ∧ (∀ i, i ∈ chainOrder n r ↔ i < n) ∧
+      (∀ x ∈ st.nodes, x.parent = chainParent r x.id ∧ x.children = chainChildren n r x.id ∧
+        x.legs.map (axisName n x.id) = chainLegs n r p x.id) ∧
+      st.left = List.range r ∧ st.right = List.range' (r + 1) (n - 1 - r) := by
+  have hids : idsAt r 0 (n - 1) = chainOrder n r := by
+    unfold idsAt chainOrder
+    rw [List.range_eq_range' (n := r), List.reverse_range']
+    simp
+  have hmem : ∀ i, i ∈ chainOrder n r ↔ i < n := by
+    intro i
+    rw [← hids, mem_idsAt r 0 (n - 1) i (by omega) (by omega)]
+    omega
+  refine ⟨stateAt n r p 0 (n - 1), fromTensorList_closed n r p hn hr, rfl, ?_, ?_, hmem, ?_, ?_, ?_⟩
+  · show ((idsAt r 0 (n - 1)).map (nodeAt n r p 0 (n - 1))).map (·.id) = _
+    rw [List.map_map, ← hids]
+    simp [Function.comp_def, nodeAt_id]
+  · unfold chainOrder
+    simp only [List.nodup_cons, List.nodup_append, List.mem_append, List.mem_reverse, List.mem_range,
+      List.mem_range'_1]
+    refine ⟨by omega, nodup_reverse' _ List.nodup_range, List.nodup_range', ?_⟩
+    intro a ha b hb
+    omega
+  · intro x hx
+    simp only [stateAt, List.mem_map] at hx
+    obtain ⟨i, hi, rfl⟩ := hx
+    have hin : i < n := (hmem i).1 (hids ▸ hi)
+    refine ⟨?_, ?_, legs_axis n r p i hr hin hn⟩
+    · rfl
+    · show (nodeAt n r p 0 (n - 1) i).children = chainChildren n r i
+      unfold nodeAt chainChildren
+      by_cases h1 : i < r
+      · simp only [h1, if_true]
+      · by_cases h2 : r < i
+        · by_cases h3 : i + 1 < n
+          · have a : i < n - 1 := by omega
+            simp only [h1, h2, h3, a, if_true, if_false]
+          · have a : ¬ i < n - 1 := by omega
+            simp only [h1, h2, h3, a, if_true, if_false]
+        · by_cases h3 : r + 1 < n
+          · have a : r < n - 1 := by omega
+            simp only [h1, h2, h3, a, if_true, if_false]
+          · have a : ¬ r < n - 1 := by omega
+            simp only [h1, h2, h3, a, if_false]
+  · show List.range' 0 (r - 0) = List.range r
+    rw [Nat.sub_zero, ← List.range_eq_range']
+  · rfl
+
+example : fromTensorList 4 2 (fun _ => 1) = some
+    ⟨[⟨2, none, [1, 3], [0, 1, 2]⟩, ⟨1, some 2, [0], [1, 0, 2]⟩, ⟨0, some 1, [], [0, 1]⟩,
+      ⟨3, some 2, [], [0, 1]⟩], 2, [0, 1], [3]⟩ := by decide
+
+example : (2 : Nat) ≤ 4 ∧ 2 < 4 := by decide
 
 /-! ### Ising term lists (`_abstract_ising_model`) -/
 
